@@ -34,12 +34,28 @@ func H_cookie_pair() {
 	verifAssert(ev1.Op == Rename && ev1.Name == "/t/old" && ev1.renamedFrom == "", "first half: Rename of the old name")
 	verifAssert(w.cookieIndex <= 9, "ring index stays in range")
 	j := verifChoose("foreign-halves", verifParam("J")+1)
+	var fc [10]uint32
+	nf := 0
 	for i := 0; i < j; i++ {
-		ci := verifU32("foreigncookie")
-		verifAssume(ci != 0 && ci != c)
-		// foreign halves interleaved by other threads: move-outs whose move-in we never see
-		e := w.newEvent(verifForeign[i], unix.IN_MOVED_FROM, ci)
-		verifAssert(e.Op == Rename, "foreign half is a Rename")
+		// halves of other moves interleaved by other threads: move-outs (whose move-in may
+		// or may not follow), and the move-ins of earlier foreign move-outs
+		if nf > 0 && verifParam("NONEST") == 0 && verifBool("foreign-is-movein") {
+			q := verifChoose("which-foreign", nf)
+			e := w.newEvent("/g/x", unix.IN_MOVED_TO, fc[q])
+			verifAssert(e.Op == Create && e.renamedFrom == verifForeign[q], "a foreign move's Create is paired with its own old name")
+			verifReach("cookie-pair-nested")
+		} else {
+			ci := verifU32("foreigncookie")
+			verifAssume(ci != 0 && ci != c)
+			verifDistinctFromRing(w, ci)
+			for q := 0; q < nf; q++ {
+				verifAssume(ci != fc[q])
+			}
+			fc[nf] = ci
+			e := w.newEvent(verifForeign[nf], unix.IN_MOVED_FROM, ci)
+			nf++
+			verifAssert(e.Op == Rename, "foreign half is a Rename")
+		}
 		verifAssert(w.cookieIndex <= 9, "ring index stays in range")
 	}
 	ev2 := w.newEvent("/t/new", unix.IN_MOVED_TO|isdir, c)
